@@ -17,6 +17,7 @@ def topInst : Hint → Obj → Bool
   | .seq o _, x | .reit o _, x | .quasi o _, x | .mapping o _ _, x => W.sub x.cls o
   | .typeOf _, x => W.sub x.cls cType
   | .annotated h _, x => topInst h x
+  | .generic c _, x => W.sub x.cls c
 
 /-- **Top-level class.** An object that is not an instance of the hint's origin class is
     rejected on every call, whatever the sampler draws. -/
@@ -30,6 +31,7 @@ theorem C02_top : ∀ (h : Hint) (x : Obj), topInst W h x = false → chk W conf
   | .mapping o k v, x, ht => by simp only [topInst] at ht; simp [chk, ht]
   | .typeOf cs, x, ht => by simp only [topInst] at ht; simp [chk, typeOfTest, ht]
   | .annotated h vs, x, ht => by simp only [topInst] at ht; simp [chk, C02_top h x ht]
+  | .generic c bs, x, ht => by simp only [topInst] at ht; simp [chk, ht]
 
 /-- **Fixed tuples: length.** A tuple of the wrong length is rejected for every draw. -/
 theorem C02_tuple_len (hs : List Hint) (x : Obj) (hl : x.items.length ≠ hs.length) :
@@ -168,12 +170,16 @@ def consistent : Hint → Obj → Bool
       (x.items.isEmpty || (x.items.any (fun y => consistent k y) && x.vals.any (fun y => consistent v y)))
   | .typeOf cs, x => typeOfTest W cs x
   | .annotated h vs, x => consistent h x && vs.all (fun v => v.holds W x)
+  | .generic c bs, x => W.sub x.cls c && consistentEvery bs x
 def consistentAny : List Hint → Obj → Bool
   | [], _ => false
   | h :: hs, x => consistent h x || consistentAny hs x
 def consistentZip : List Hint → List Obj → Bool
   | h :: hs, y :: ys => consistent h y && consistentZip hs ys
   | _, _ => true
+def consistentEvery : List Hint → Obj → Bool
+  | [], _ => true
+  | h :: hs, x => consistent h x && consistentEvery hs x
 end
 
 mutual
@@ -250,6 +256,16 @@ theorem C02_accept_consistent : ∀ (h : Hint) (x : Obj), chk W conf r h x = tru
     simp only [chk, Bool.and_eq_true] at hc
     simp only [consistent, Bool.and_eq_true]
     exact ⟨C02_accept_consistent h x hc.1, hc.2⟩
+  | .generic c bs, x, hc => by
+    simp only [chk, Bool.and_eq_true] at hc
+    simp only [consistent, Bool.and_eq_true]
+    exact ⟨hc.1, accept_consistentEvery bs x hc.2⟩
+theorem accept_consistentEvery : ∀ (hs : List Hint) (x : Obj), chkEvery W conf r hs x = true → consistentEvery W hs x = true
+  | [], _, _ => by simp [consistentEvery]
+  | h :: hs, x, hc => by
+    simp only [chkEvery, Bool.and_eq_true] at hc
+    simp only [consistentEvery, Bool.and_eq_true]
+    exact ⟨C02_accept_consistent h x hc.1, accept_consistentEvery hs x hc.2⟩
 theorem accept_consistentAny : ∀ (hs : List Hint) (x : Obj), chkAny W conf r hs x = true → consistentAny W hs x = true
   | [], _, hc => by simp [chkAny] at hc
   | h :: hs, x, hc => by
@@ -274,7 +290,8 @@ theorem C02_ignorable_sat : ∀ (h : Hint) (x : Obj), h.ignorable = true → sat
   | .any, _, _ => by simp [sat]
   | .union hs, x, hi => by simp only [Hint.ignorable] at hi; simp only [sat]; exact ignorable_satAny hs x hi
   | .cls _, _, hi | .shallow _, _, hi | .literal _, _, hi | .tupleFixed _, _, hi | .seq _ _, _, hi
-  | .reit _ _, _, hi | .quasi _ _, _, hi | .mapping _ _ _, _, hi | .typeOf _, _, hi | .annotated _ _, _, hi => by
+  | .reit _ _, _, hi | .quasi _ _, _, hi | .mapping _ _ _, _, hi | .typeOf _, _, hi | .annotated _ _, _, hi
+  | .generic _ _, _, hi => by
     simp [Hint.ignorable] at hi
 theorem ignorable_satAny : ∀ (hs : List Hint) (x : Obj), anyIgnorable hs = true → satAny W hs x = true
   | [], _, hi => by simp [anyIgnorable] at hi
